@@ -150,6 +150,7 @@ func runC08(c *engine.Ctx) {
 	})
 	c.Add(int64(len(cases)), 0, 0, 0)
 	c08KeyLimits(c, kinds)
+	c08FormDigest(c, kinds)
 	c.AddSample(map[string]interface{}{"case": cases[7].String()})
 	c.AddSample(map[string]interface{}{"case": cases[len(cases)/2].String()})
 }
@@ -500,4 +501,82 @@ func c08KeyLimits(c *engine.Ctx, kinds []drv.Kind) {
 		}
 	})
 	c.Bounds["key_limit_cases"] = len(cases)
+}
+
+// c08FormDigest: a browser-form upload that carries a Content-MD5 field is an upload that
+// carries a Content-MD5.
+func c08FormDigest(c *engine.Ctx, kinds []drv.Kind) {
+	type fc struct {
+		kind  drv.Kind
+		md5   string // correct | wrong | not-base64 | short15
+		integ bool
+		start string
+	}
+	var cases []fc
+	for _, k := range kinds {
+		for _, m := range []string{"correct", "wrong", "not-base64", "short15"} {
+			for _, integ := range []bool{true, false} {
+				for _, st := range []string{"absent", "existing"} {
+					cases = append(cases, fc{k, m, integ, st})
+				}
+			}
+		}
+	}
+	engine.ParallelFor(len(cases), func(_, i int) {
+		cs := cases[i]
+		w, err := drv.NewWorld(drv.Config{Kind: cs.kind, NoIntegrity: !cs.integ})
+		if err != nil {
+			engine.HarnessError("C08: %v", err)
+		}
+		defer w.Close()
+		if !cs.kind.IsSingle() {
+			w.Do(drv.Req{Method: "PUT", Path: "/aaa"})
+		}
+		if cs.start == "existing" {
+			w.Do(drv.Req{Method: "PUT", Path: "/aaa/dir/f", Body: []byte("the-old-content"), Header: drv.H("x-amz-meta-keep", "kept")})
+		}
+		before := c08Snap(w)
+		body := []byte("form-body-12")
+		sum := md5.Sum(body)
+		field := base64.StdEncoding.EncodeToString(sum[:])
+		switch cs.md5 {
+		case "wrong":
+			o := md5.Sum([]byte("other"))
+			field = base64.StdEncoding.EncodeToString(o[:])
+		case "not-base64":
+			field = "!!!not-base64!!!"
+		case "short15":
+			field = base64.StdEncoding.EncodeToString(sum[:15])
+		}
+		fb, ct := formBody("dir/f", body, map[string]string{"Content-MD5": field})
+		r := w.Do(drv.Req{Method: "POST", Path: "/aaa", Header: drv.H("Content-Type", ct), Body: fb})
+		c.Add(1, 1, 1, 1)
+		hist := []string{fmt.Sprintf("%s form upload Content-MD5=%s integrity=%v start=%s", cs.kind, cs.md5, cs.integ, cs.start)}
+		report := func(field, msg string) {
+			c.Report(&engine.Violation{Sig: sig("C08", backendClass(cs.kind), "form-digest", cs.md5, field, "start="+cs.start), World: string(cs.kind), History: hist, Msg: hist[0] + ": " + msg})
+		}
+		if r.Panic != "" {
+			report("panic@"+drv.PanicFrame(r.Panic), firstLine(r.Panic))
+			return
+		}
+		mustReject := cs.integ && cs.md5 != "correct"
+		if mustReject {
+			if r.Status < 400 {
+				report("accepted", "accepted with "+r.Short()+" although the digest does not match")
+			} else if after := c08Snap(w); after != before {
+				report("state-changed", "refused ("+r.Short()+") but the stored state changed")
+			} else {
+				c.Distinct(hist[0])
+			}
+			return
+		}
+		if r.Status >= 300 {
+			report("rejected-valid", "refused with "+r.Short())
+			return
+		}
+		if v := w.Get("aaa", "dir/f"); v.Status != 200 || string(v.Body) != string(body) {
+			report("stored", "GET answers "+v.String())
+		}
+	})
+	c.Bounds["form_digest_cases"] = len(cases)
 }
